@@ -3,7 +3,7 @@
 // lackey trace between the second pair of markers is compared across runs
 // that differ only in the secret.
 //
-//	ctvictim <op> <secret-hex> <secret2-hex> <public-hex>
+//	ctvictim <op> <secret-hex> <secret2-hex> <public-hex> [<warm-up secret-hex> <warm-up secret2-hex>]
 package main
 
 import (
@@ -116,6 +116,16 @@ func main() {
 	dummy2 := make([]byte, len(sec2))
 	for i := range dummy2 {
 		dummy2[i] = 0x42
+	}
+	// optional: the warm-up call uses the given (reference) secrets instead, so
+	// that the measured call of the reference execution repeats the previous
+	// secret while every other execution changes it
+	if len(os.Args) > 6 {
+		w1, _ := hex.DecodeString(os.Args[5])
+		w2, _ := hex.DecodeString(os.Args[6])
+		if len(w1) == len(sec) && len(w2) == len(sec2) {
+			dummy, dummy2 = w1, w2
+		}
 	}
 	run(op, dummy, dummy2, pub)
 	run(op, sec, sec2, pub)
